@@ -28,7 +28,7 @@ NAMECLASSES = ["", "ascii", "ascii", "utf8"]
 def build_scenarios(ctx, paths, rnd):
     scns = []
     sid = 0
-    kbudget = 12 if ctx.thorough else 5
+    kbudget = 8 if ctx.thorough else 5
     # (1) TLC call sequences x "the k-th Keep write fails" for every k (budgeted)
     for p in paths:
         sid += 1
@@ -38,7 +38,7 @@ def build_scenarios(ctx, paths, rnd):
                      "init": "empty", "fail": "kth_all", "failk": kbudget, "saves": rnd.choice([1, 2]),
                      "namemode": rnd.choice(NAMECLASSES), "gen": "tlc"})
     # (2) long random sequences x failure patterns
-    nrand = 120 if ctx.thorough else 20
+    nrand = 90 if ctx.thorough else 20
     nops = 150 if ctx.thorough else 70
     fails = [("rate", 20), ("bg", 50), ("final", 50), ("kth_all", 0), ("rate", 60), ("", 0)]
     bss = [1, 2, 3, 4, 5, 8, 13, 16, 32, 64]
@@ -67,7 +67,10 @@ def build_scenarios(ctx, paths, rnd):
 
 def run(ctx):
     rnd = random.Random(ctx.seed)
-    ctx.tlc(SD, "CollFSFlush", "MC_CollFSFlush_C09_big.cfg" if ctx.thorough else "MC_CollFSFlush_C09.cfg",
+    if C08.SKIP_MC:
+        ctx.log("VERIF_SKIP_MC=1: model checking stage skipped")
+    else:
+        ctx.tlc(SD, "CollFSFlush", "MC_CollFSFlush_C09_big.cfg" if ctx.thorough else "MC_CollFSFlush_C09.cfg",
             timeout=1500, label="exhaustive: segment/flush model with failing Keep writes (content intact, sync flush complete, no hazard)")
     paths, r = ctx.gen(SD, "CollFSGen", "Gen_CollFS_C08_big.cfg" if ctx.thorough else "Gen_CollFS_C08.cfg",
                        timeout=1500, label="contract state space + call sequence emission")
@@ -75,13 +78,13 @@ def run(ctx):
     paths.sort(key=lambda p: (len(p["ops"]), repr(p["ops"])))
     rnd.shuffle(paths)
     # sequences that end with data in some file are the interesting ones for saving
-    paths = [p for p in paths if any(o["op"] == "write" for o in p["ops"])][:(4000 if ctx.thorough else 160)]
+    paths = [p for p in paths if any(o["op"] == "write" for o in p["ops"])][:(1200 if ctx.thorough else 160)]
     scns = build_scenarios(ctx, paths, rnd)
     by_id = {s["id"]: s for s in scns}
     ctx.extra["scenarios"] = {"tlc_paths": len(paths), "total": len(scns)}
     ov = ctx.harness_overlay(PKG, "harness/C08_arvados")
     ov.update(ctx.harness_overlay(PKG, "harness/C09_arvados"))
-    events, out = ctx.go_run_driver(PKG, ov, "TestVerifC09$", scns, timeout=2400)
+    events, out = C08.run_driver(ctx, PKG, ov, "TestVerifC09$", scns, timeout=2400)
     traces = vlib.split_traces(events)
     ctx.evaluations = len(traces)
     ctx.extra["events_judged"] = len(events)
